@@ -24,6 +24,12 @@ type structType struct {
 	fieldInfos []structFieldInfo // 偏移量对应的字段信息内容
 }
 
+// structTypeCacheKey 缓存 structType 的 key
+type structTypeCacheKey struct {
+	ty        reflect.Type
+	targetTag string
+}
+
 // structFieldInfo 结构体字段信息
 type structFieldInfo struct {
 	export     bool   // 是否可导出
@@ -232,7 +238,9 @@ func (v *VStruct) validate(structName string, value reflect.Value, isValidGather
 
 // getCacheStructType 获取缓存中的 reflect.Type
 func (v *VStruct) getCacheStructType(ty reflect.Type) structType {
-	if obj, ok := cacheStructType.Load(ty); ok {
+	// 注: 验证规则是从 targetTag 里取的, 所以缓存的 key 需要包含 targetTag
+	cacheKey := structTypeCacheKey{ty: ty, targetTag: v.targetTag}
+	if obj, ok := cacheStructType.Load(cacheKey); ok {
 		return obj.(structType)
 	}
 
@@ -252,7 +260,7 @@ func (v *VStruct) getCacheStructType(ty reflect.Type) structType {
 		}
 		obj.fieldInfos[fieldNum] = info
 	}
-	cacheStructType.Store(ty, obj)
+	cacheStructType.Store(cacheKey, obj)
 	return obj
 }
 
